@@ -59,6 +59,24 @@ package fd
 //@ func (*FileD).getStaticInfo
 //@   option allow-exit yes
 //@   assert at "infoCopy := *info" deadqueueInfo != nil ==> fresh(deadqueueInfo)
+//@   pure
 //@   ensures result1 == nil ==> fresh(result0)
 //@   callee Get(kind, t) (info, err)
+//@     pure
 //@     ensures err == nil ==> info != nil
+//@   callee MustMap() (m)
+//@     pure
+//@   callee MustString() (v)
+//@     pure
+//@   callee Del(k)
+//@     pure
+//@   callee Encode() (b, err)
+//@     pure
+//@   callee GetConfig(info, js, values) (c, err)
+//@     pure
+//@   callee Infof(f, a)
+//@     pure
+//@   callee Errorf(f, a) (e)
+//@     pure
+//@   callee Error() (s)
+//@     pure
